@@ -749,7 +749,10 @@ def r3_naive(ctx) -> None:
     for n in ast.walk(f.node):
       if isinstance(n, ast.For) and isinstance(n.target, ast.Tuple) and len(n.target.elts) == 2 and isinstance(n.target.elts[1], ast.Name):
         loopv = n.target.elts[1].id
-    role = lambda x: 'A' if unparse(x, 0) == loopv else 'B' if unparse(x, 0) == other else None
+    pts = f.params[1] if len(f.params) > 1 else 'points'
+    import re as _re
+    role = lambda x: 'A' if (unparse(x, 0) == loopv or _re.fullmatch(_re.escape(pts) + r'\[\w+\]', unparse(x, 0))) \
+        else 'B' if unparse(x, 0) == other else None
     rowpreds: List[Pred] = []
     for n in g.nodes:
       if n not in live or n.kind != 'stmt' or not isinstance(n.ast, ast.Assign):
@@ -775,7 +778,8 @@ def r3_naive(ctx) -> None:
           continue
         red = reduction(e)
         if red is None or red[0] != 'all':
-          if any(isinstance(x, ast.Name) and x.id in (loopv, other) for x in ast.walk(e)):
+          if any(isinstance(x, ast.Name) and x.id in (loopv, other, pts) for x in ast.walk(e)) and not (
+              isinstance(e, ast.UnaryOp) and 'is_optimal' in unparse(e, 0)) and 'is_optimal' not in unparse(e, 0):
             raise AnalysisError(f'is_pareto_optimal_against: condition `{unparse(e, 70)}` is not an all() over the rows of `{other}`')
           continue
         rowpreds.append(parse_pred(red[1], role, {}))
@@ -798,7 +802,7 @@ def r3_naive(ctx) -> None:
   lv = None
   stn = None
   for n in ast.walk(gm.node):
-    if isinstance(n, ast.For) and isinstance(n.target, ast.Tuple):
+    if isinstance(n, ast.For) and isinstance(n.target, ast.Tuple) and len(n.target.elts) == 2 and isinstance(n.target.elts[1], ast.Name):
       lv = n.target.elts[1].id
     if isinstance(n, ast.Assign) and isinstance(n.targets[0], ast.Subscript) and isinstance(n.value, ast.BinOp):
       expr, stn = n.value, n
@@ -807,7 +811,17 @@ def r3_naive(ctx) -> None:
   g2 = cfgmod.CFG(gm.node)
   rd2 = flow.ReachingDefs(g2)
   e2 = unfold(expr, g2.node_of(stn), g2, rd2)
-  role2 = lambda x: 'B' if unparse(x, 0) == lv else 'A' if unparse(x, 0).startswith(gm.params[1] + '[') else None
+  idx_vars = {t_.id for n_ in ast.walk(gm.node) if isinstance(n_, ast.For) for t_ in ast.walk(n_.target) if isinstance(t_, ast.Name)}
+
+  def role2(x):
+    t_ = unparse(x, 0)
+    if lv is not None and t_ == lv:
+      return 'B'
+    if isinstance(x, ast.Subscript) and unparse(x.value, 0) == gm.params[1]:
+      if isinstance(x.slice, ast.Name) and x.slice.id in idx_vars:
+        return 'B'
+      return 'A'
+    return None
   p3 = parse_pred(e2, role2, {})
   _report(ctx, 'Naive.is_pareto_optimal survivor test', expr, gm, p3, 'optimal')
 
